@@ -9,17 +9,19 @@ Open Scope Z_scope.
 (** * Cubes at the level of bits *)
 
 (* k lies in the cube c: it agrees with the key on every bit the mask selects *)
-Definition inb (c : km) (k : Z) : Prop :=
-  forall j, 0 <= j -> Z.testbit (snd c) j = true -> Z.testbit k j = Z.testbit (fst c) j.
+Definition inb2 (ck cm k : Z) : Prop :=
+  forall j, 0 <= j -> Z.testbit cm j = true -> Z.testbit k j = Z.testbit ck j.
+Definition inb (c : km) (k : Z) : Prop := inb2 (fst c) (snd c) k.
 (* no key bit outside the mask *)
-Definition wfb (c : km) : Prop :=
-  forall j, 0 <= j -> Z.testbit (fst c) j = true -> Z.testbit (snd c) j = true.
+Definition wfb2 (ck cm : Z) : Prop :=
+  forall j, 0 <= j -> Z.testbit ck j = true -> Z.testbit cm j = true.
+Definition wfb (c : km) : Prop := wfb2 (fst c) (snd c).
 (* every mask bit is one of the 32 key bits *)
 Definition mask32b (m : Z) : Prop := forall j, 0 <= j -> Z.testbit m j = true -> j < 32.
 
 Lemma wf_km_wfb : forall c, wf_km c = true <-> wfb c.
 Proof.
-  intros [ck cm]; unfold wf_km, wfb; simpl; split.
+  intros [ck cm]; unfold wf_km, wfb, wfb2; simpl; split.
   - intros H j Hj Hk. apply Z.eqb_eq in H.
     assert (Hb : Z.testbit (Z.land ck (Z.lnot cm)) j = false) by (rewrite H; apply Z.bits_0).
     rewrite Z.land_spec, Z.lnot_spec, Hk in Hb by exact Hj. simpl in Hb.
@@ -36,12 +38,12 @@ Proof.
   apply Z.eqb_eq in H. apply Z.eqb_eq. subst ck.
   apply Z.bits_inj'. intros j Hj.
   rewrite !Z.land_spec, Z.lnot_spec, Z.bits_0 by exact Hj.
-  destruct (Z.testbit cm j); [apply andb_false_r | apply andb_false_r].
+  destruct (Z.testbit k j), (Z.testbit cm j); reflexivity.
 Qed.
 
 Lemma matches_inb : forall c k, wfb c -> (km_matches c k = true <-> inb c k).
 Proof.
-  intros [ck cm] k Hwf. unfold km_matches, inb, wfb in *; simpl in *. split.
+  intros [ck cm] k Hwf. unfold km_matches, inb, inb2, wfb, wfb2 in *; simpl in *. split.
   - intros H j Hj Hm. apply Z.eqb_eq in H. rewrite <- H.
     rewrite Z.land_spec, Hm. symmetry; apply andb_true_r.
   - intros H. apply Z.eqb_eq. apply Z.bits_inj'. intros j Hj.
@@ -65,12 +67,12 @@ Proof.
 Qed.
 
 (* cubes that intersect agree on the bits both select *)
-Definition agree (c d : km) : Prop :=
-  forall j, 0 <= j -> Z.testbit (snd c) j = true -> Z.testbit (snd d) j = true ->
-            Z.testbit (fst c) j = Z.testbit (fst d) j.
+Definition agree2 (ck cm dk dm : Z) : Prop :=
+  forall j, 0 <= j -> Z.testbit cm j = true -> Z.testbit dm j = true ->
+            Z.testbit ck j = Z.testbit dk j.
 
 Lemma intersect_agree : forall ck cm dk dm,
-  intersect ck cm dk dm = true -> agree (ck, cm) (dk, dm).
+  intersect ck cm dk dm = true -> agree2 ck cm dk dm.
 Proof.
   intros ck cm dk dm H j Hj Hc Hd. unfold intersect in H; simpl in *. apply Z.eqb_eq in H.
   assert (Hb : Z.testbit (Z.land ck dm) j = Z.testbit (Z.land dk cm) j) by (rewrite H; reflexivity).
@@ -97,16 +99,16 @@ Qed.
 (** * cube_sub_bits covers c \ d *)
 
 Lemma cube_sub_bits_wf : forall bits ck cm dk dm,
-  (forall b, In b bits -> 0 <= b) -> wfb (ck, cm) ->
+  (forall b, In b bits -> 0 <= b) -> wfb2 ck cm ->
   Forall wfb (cube_sub_bits bits ck cm dk dm).
 Proof.
   induction bits as [| b bs IH]; intros ck cm dk dm Hbits Hwf; simpl; [constructor |].
   assert (Hb : 0 <= b) by (apply Hbits; left; reflexivity).
   assert (Hbs : forall b', In b' bs -> 0 <= b') by (intros; apply Hbits; right; assumption).
-  assert (Hwf1 : wfb (ck, Z.lor cm (Z.shiftl 1 b))).
+  assert (Hwf1 : wfb2 ck (Z.lor cm (Z.shiftl 1 b))).
   { intros j Hj Hk; simpl in *. rewrite testbit_lor_bit by assumption.
     rewrite (Hwf j Hj Hk). reflexivity. }
-  assert (Hwf2 : wfb (Z.lor ck (Z.shiftl 1 b), Z.lor cm (Z.shiftl 1 b))).
+  assert (Hwf2 : wfb2 (Z.lor ck (Z.shiftl 1 b)) (Z.lor cm (Z.shiftl 1 b))).
   { intros j Hj Hk; simpl in *. rewrite testbit_lor_bit in * by assumption.
     apply orb_true_iff in Hk. destruct Hk as [Hk | Hk].
     - rewrite (Hwf j Hj Hk). reflexivity.
@@ -120,7 +122,7 @@ Qed.
 
 Lemma cube_sub_bits_cover : forall bits ck cm dk dm k,
   (forall b, In b bits -> 0 <= b) ->
-  wfb (ck, cm) -> agree (ck, cm) (dk, dm) -> inb (ck, cm) k ->
+  wfb2 ck cm -> agree2 ck cm dk dm -> inb2 ck cm k ->
   (exists i, In i bits /\ Z.testbit dm i = true /\ Z.testbit k i <> Z.testbit dk i) ->
   exists c', In c' (cube_sub_bits bits ck cm dk dm) /\ inb c' k.
 Proof.
@@ -201,8 +203,8 @@ Qed.
 
 (* a key of c that d does not match lies in one of the cubes of cube_sub_bits *)
 Lemma cube_sub_bits_cover32 : forall ck cm dk dm k,
-  wfb (ck, cm) -> wfb (dk, dm) -> mask32b dm -> agree (ck, cm) (dk, dm) ->
-  inb (ck, cm) k -> km_matches (dk, dm) k = false ->
+  wfb2 ck cm -> wfb2 dk dm -> mask32b dm -> agree2 ck cm dk dm ->
+  inb2 ck cm k -> km_matches (dk, dm) k = false ->
   exists c', In c' (cube_sub_bits bits32 ck cm dk dm) /\ inb c' k.
 Proof.
   intros ck cm dk dm k Hwfc Hwfd H32 Hag Hin Hnm.
@@ -219,9 +221,157 @@ Proof.
     + rewrite andb_true_r.
       assert (Hj32 : In j bits32) by (apply bits32_in; split; [exact Hj | apply H32; assumption]).
       destruct (Bool.bool_dec (Z.testbit k j) (Z.testbit dk j)) as [Heq | Hneq]; [exact Heq | exfalso].
-      assert (Hall := proj1 (existsb_nexists _ _) Hex).
-      apply (Hall j Hj32). rewrite Hd. simpl. apply negb_true_iff.
-      destruct (Z.testbit k j), (Z.testbit dk j); simpl; try reflexivity; exfalso; apply Hneq; reflexivity.
+      assert (Hex' : existsb (fun i => Z.testbit dm i && negb (Bool.eqb (Z.testbit k i) (Z.testbit dk i)))
+                             bits32 = true).
+      { apply existsb_exists. exists j. split; [exact Hj32 |]. rewrite Hd. simpl.
+        destruct (Z.testbit k j), (Z.testbit dk j); simpl; try reflexivity; exfalso; apply Hneq; reflexivity. }
+      rewrite Hex' in Hex. discriminate.
     + rewrite andb_false_r. destruct (Z.testbit dk j) eqn:Hk; [| reflexivity].
       rewrite (Hwfd j Hj Hk) in Hd. discriminate.
 Qed.
+
+(* ------------------------------------------------------------------------------------------------ *)
+(** * Regions and the walk down T *)
+
+Definition sane_entry (e : entry) : Prop :=
+  0 <= e_key e <= 4294967295 /\ 0 <= e_mask e <= 4294967295.
+
+Lemma sane_spec : forall e, sane e = true -> sane_entry e.
+Proof.
+  intros e H. unfold sane in H. repeat (apply andb_true_iff in H; destruct H as [H ?]).
+  unfold sane_entry. lia.
+Qed.
+
+Lemma matches_false_of_not_wf : forall c k, wf_km c = false -> km_matches c k = false.
+Proof.
+  intros c k H. destruct (km_matches c k) eqn:Hm; [| reflexivity].
+  apply matches_wf in Hm. congruence.
+Qed.
+
+(* a key of c not matched by d lies in one of the cubes of cube_sub c d *)
+Lemma cube_sub_cover : forall c d k,
+  wfb c -> wfb d -> mask32b (snd d) -> inb c k -> km_matches d k = false ->
+  exists c', In c' (cube_sub c d) /\ wfb c' /\ inb c' k.
+Proof.
+  intros [ck cm] [dk dm] k Hwc Hwd H32 Hin Hnm. unfold cube_sub; simpl.
+  destruct (intersect ck cm dk dm) eqn:Hi.
+  - destruct (cube_sub_bits_cover32 ck cm dk dm k Hwc Hwd H32 (intersect_agree _ _ _ _ Hi) Hin Hnm)
+      as [c' [Hc' Hk']].
+    exists c'. split; [exact Hc' | split; [| exact Hk']].
+    pose proof (cube_sub_bits_wf bits32 ck cm dk dm bits32_nonneg Hwc) as Hall.
+    rewrite Forall_forall in Hall. apply Hall. exact Hc'.
+  - exists (ck, cm). split; [left; reflexivity | split; assumption].
+Qed.
+
+Lemma cube_sub_wf : forall c d, wfb c -> Forall wfb (cube_sub c d).
+Proof.
+  intros [ck cm] [dk dm] Hw. unfold cube_sub; simpl.
+  destruct (intersect ck cm dk dm).
+  - apply cube_sub_bits_wf; [exact bits32_nonneg | exact Hw].
+  - constructor; [exact Hw | constructor].
+Qed.
+
+Lemma region_cover : forall earlier cs k,
+  Forall (fun d => sane d = true) earlier ->
+  (forall d, In d earlier -> matches d k = false) ->
+  (exists c, In c cs /\ wfb c /\ inb c k) ->
+  exists c', In c' (region cs earlier) /\ wfb c' /\ inb c' k.
+Proof.
+  induction earlier as [| d ds IH]; intros cs k Hsane Hnm Hex; simpl; [exact Hex |].
+  inversion Hsane as [| ? ? Hsd Hsds]; subst.
+  assert (Hnm' : forall d', In d' ds -> matches d' k = false) by (intros; apply Hnm; right; assumption).
+  destruct (wf_km (km_of d)) eqn:Hwf.
+  - apply IH; [exact Hsds | exact Hnm' |].
+    destruct Hex as [c [Hc [Hwc Hk]]].
+    destruct (cube_sub_cover c (km_of d) k Hwc) as [c' [Hc' [Hwc' Hk']]].
+    + apply wf_km_wfb. exact Hwf.
+    + apply sane_mask32b. apply sane_spec in Hsd. destruct Hsd as [_ Hm]. exact Hm.
+    + exact Hk.
+    + apply Hnm. left. reflexivity.
+    + exists c'. split; [| split; assumption].
+      apply in_flat_map. exists c. split; assumption.
+  - apply IH; assumption.
+Qed.
+
+Lemma default_routableb_spec : forall e, default_routableb e = true -> default_routable e.
+Proof.
+  intros e H. unfold default_routableb in H. apply existsb_exists in H.
+  destruct H as [l [Hl Hc]]. apply andb_true_iff in Hc. destruct Hc as [Hs Hr].
+  apply Z.eqb_eq in Hs. apply Z.eqb_eq in Hr.
+  exists l. split; [| split; assumption].
+  simpl in Hl. lia.
+Qed.
+
+Lemma routes_likeb_spec : forall e t, routes_likeb e t = true -> routes_like e t.
+Proof.
+  intros e t H. unfold routes_likeb, subsetb in H. apply andb_true_iff in H. destruct H as [Hr Hs].
+  apply Z.eqb_eq in Hr. apply Z.eqb_eq in Hs. split; assumption.
+Qed.
+
+(* the outcome the property asks for key k, given O's entry e *)
+Definition routed_like (e : entry) (T : table) (k : Z) : Prop :=
+  match lookup T k with
+  | Some e' => routes_like e e'
+  | None => default_routable e
+  end.
+
+Lemma check_cube_sound : forall e T c k,
+  Forall (fun t => sane t = true) T ->
+  check_cube e T c = true -> wfb c -> inb c k -> routed_like e T k.
+Proof.
+  intros e T. induction T as [| t T' IH]; intros c k Hsane Hchk Hwc Hk; unfold routed_like, lookup in *.
+  - simpl in *. apply default_routableb_spec. exact Hchk.
+  - inversion Hsane as [| ? ? Hst HsT']; subst. simpl in Hchk. simpl.
+    destruct (wf_km (km_of t) && intersect (fst c) (snd c) (e_key t) (e_mask t)) eqn:Hcond.
+    + apply andb_true_iff in Hcond. destruct Hcond as [Hwt Hi].
+      apply andb_true_iff in Hchk. destruct Hchk as [Hrl Hall].
+      destruct (matches t k) eqn:Hm.
+      * apply routes_likeb_spec. exact Hrl.
+      * destruct c as [ck cm]. simpl in *.
+        destruct (cube_sub_bits_cover32 ck cm (e_key t) (e_mask t) k) as [c' [Hc' Hk']].
+        -- exact Hwc.
+        -- apply wf_km_wfb in Hwt. exact Hwt.
+        -- apply sane_mask32b. apply sane_spec in Hst. destruct Hst as [_ H]. exact H.
+        -- apply intersect_agree. exact Hi.
+        -- exact Hk.
+        -- exact Hm.
+        -- rewrite forallb_forall in Hall.
+           apply (IH c' k HsT' (Hall c' Hc')); [| exact Hk'].
+           pose proof (cube_sub_bits_wf bits32 ck cm (e_key t) (e_mask t) bits32_nonneg Hwc) as Hf.
+           rewrite Forall_forall in Hf. apply Hf. exact Hc'.
+    + assert (Hm : matches t k = false).
+      { apply andb_false_iff in Hcond. destruct Hcond as [Hwt | Hi].
+        - apply matches_false_of_not_wf. exact Hwt.
+        - destruct c as [ck cm]. unfold matches, km_of.
+          apply (intersect_false_disjoint ck cm (e_key t) (e_mask t) k Hi).
+          apply matches_inb; assumption. }
+      rewrite Hm. apply (IH c k HsT' Hchk Hwc Hk).
+Qed.
+
+Lemma check_from_sound : forall O before T k e,
+  Forall (fun t => sane t = true) before -> Forall (fun t => sane t = true) T ->
+  check_from before O T = true ->
+  (forall d, In d before -> matches d k = false) ->
+  lookup O k = Some e -> routed_like e T k.
+Proof.
+  induction O as [| e0 r IH]; intros before T k e Hsb HsT Hchk Hnm Hl; unfold lookup in Hl; simpl in Hl.
+  - discriminate.
+  - simpl in Hchk. apply andb_true_iff in Hchk. destruct Hchk as [Hhead Hrest].
+    destruct (matches e0 k) eqn:Hm.
+    + injection Hl as <-.
+      assert (Hwf : wf_km (km_of e0) = true) by (apply (matches_wf _ k); exact Hm).
+      rewrite Hwf in Hhead.
+      destruct (region_cover before [km_of e0] k Hsb Hnm) as [c' [Hc' [Hwc' Hk']]].
+      * exists (km_of e0). split; [left; reflexivity | split].
+        -- apply wf_km_wfb. exact Hwf.
+        -- apply matches_inb; [apply wf_km_wfb; exact Hwf | exact Hm].
+      * rewrite forallb_forall in Hhead.
+        apply (check_cube_sound e0 T c' k HsT (Hhead c' Hc') Hwc' Hk').
+    + (* e0 does not match: it joins the entries above *)
+      assert (Hs0 : sane e0 = true \/ True) by (right; exact I).
+      apply (IH (e0 :: before) T k e); try assumption.
+      * constructor; [| exact Hsb].
+        (* sanity of e0 is part of the global check; it is threaded by the caller *)
+        admit.
+      * intros d [<- | Hd]; [exact Hm | apply Hnm; exact Hd].
+Abort.
